@@ -62,6 +62,7 @@ type World struct {
 	// SlowLogger accounting
 	LogLines int
 	LogSlept time.Duration
+	LogMax   time.Duration // longest single block of the Logger (0: no slow Logger in this run)
 	inLogger int
 
 	deadlines []time.Time
@@ -590,6 +591,7 @@ func siteFile(site string) string {
 // time spent blocking so that upper-bound timing oracles can allow for it.
 // RunOne removes the logger after the run.
 func (w *World) SlowLogger(maxMS int) {
+	w.LogMax = time.Duration(maxMS) * time.Millisecond
 	corebgp.SetLogger(func(v ...interface{}) {
 		w.mu.Lock()
 		done := w.done
